@@ -13,6 +13,7 @@ import (
 	"sort"
 	"strings"
 	"time"
+	"verif/simtest/c01/attsim"
 
 	"verif/sim"
 	"verif/simrt"
@@ -253,6 +254,12 @@ func init() {
 			before := fileSize(raceLog())
 			o := inner(plan, sched)
 			if o == nil {
+				return o
+			}
+			if o.Violation != nil && o.Violation.Kind == "C01/double-sign-request" && strings.Contains(o.Violation.Detail, attsim.OverlapMarker) {
+				// two overlapping duty jobs both signed for one validator and epoch: the outcome of
+				// no sequential order of the two jobs (the check-and-mark of the attester is not atomic)
+				o.Violation.Kind = "C17/non-sequential/double-attestation-by-overlapping-duty-jobs"
 				return o
 			}
 			if o.Violation != nil && !strings.HasPrefix(o.Violation.Kind, "harness-") {
